@@ -58,6 +58,23 @@ def table_inputs():
             for k, inn in enumerate(inner):
                 if (dd + k) % 2 == 0 or o == "<b>":
                     out.append(o * dd + inn + cl * dd)
+    # mixed openers reaching the depth limit from below and above (a template level costs more than a tag level), around every
+    # construct that has a fall-back of its own when it can no longer recurse
+    inner2 = ["\n{|\n|- class=x\n| cell\n|}\n", "\n{| a=b\n|+ cap\n|-\n! h !! i\n|-\n| c || d\n|}\n", "\n== h ==\n", "[[l|t]]", "{{t|p=q}}", "{{{1|d}}}", "x\'\'y\'\'z", "x\'\'\'y\'\'\'z",
+              "[http://u.v w]", "http://u.v/w x", "&amp;&#65;", "<i a=\"b c\">y</i>", "<br/>", "<!--c-->", "\n* i\n", "\n; t : d\n", "\n----\n", "<nowiki>n</nowiki>", "<ref name=r />"]
+    for k in range(28, 35):
+        for m in range(0, 5):
+            for j, inn in enumerate(inner2):
+                if (k + m + j) % 2 == 0:
+                    out.append("{{a|" * k + "<b>" * m + inn + "</b>" * m + "}}" * k)
+                else:
+                    out.append("<b>" * m + "{{a|" * k + inn + "}}" * k + "</b>" * m)
+    # long runs where the C tokenizer joins one text buffer to another (punctuation after a bare URL, a scheme before ':', text
+    # after an unclosed nowiki): sizes around every growth step of the buffers
+    for n in (31, 32, 33, 63, 64, 65, 95, 96, 97, 100, 127, 128, 129, 150, 300, 1000, 5000):
+        out += ["see http://example.com/a" + "." * n + "b and more", "wow http://example.com/x" + "!" * n, "x http://a.b/c" + ",;:!?" * (n // 5) + " y",
+                "[http://a.b c" + "." * n + "]", "a" * n + "://b.c", "x " + "ab" * (n // 2) + ":c", "<nowiki>" + "z" * n + "</nowik", "<nowiki>" + "z" * n,
+                "mailto:" + "q" * n + ". r", "\u65e5http://a.b/" + "\u672c" * n + "...", "\U0001d4b3 http://a.b/" + "," * n]
     # many table cells (each cell end must give its depth back), then nested markup
     rows = "".join("|-\n" + "| r%dc0 || r%dc1 || r%dc2 || r%dc3 || r%dc4 || r%dc5 || r%dc6 || r%dc7 || r%dc8 || r%dc9\n" % ((r,) * 10) for r in range(12))
     out += ["{|\n" + rows + "|}\n{{done|{{yes|[[link]]}}}}", "{|\n" + rows.replace("| r", "| style=x | r") + "|}\n{{done|{{yes|[[link]]}}}}<b>''x''</b>"]
